@@ -20,18 +20,36 @@ CHECKS = {
  "C06": ("exploration", "bounded-exhaustive damage enumeration + seeded random PBT against an independent reference reader; verbatim and sync==async clauses",
   "Every cut length and every single-bit flip of small buckets, each followed by appends, plus random multi-damage cases (garbage incl. invalid UTF-8 and NUL, inserted lines, duplicated fragments, stripped newlines, torn tails) over histories written by the library and by an independent writer; lookups and listing must equal the fold over the records an independent reference reader accepts, sync == async, every returned entry was written verbatim, and appended records are effective.",
   "Reference reader written from the C17 statement; checksum-valid ill-formed records are out of the stated damage classes."),
+ "C12": ("exploration", "three-way differential PBT (sync / async-std / tokio) over generated programs incl. damage steps + mixed-flavour execution against the reference model",
+  "The same generated program (all option combinations, extraction, link_to, removals, raw index calls, damage to content and bucket files between steps) runs in three fresh caches through the _sync API, this build's async runtime and the other runtime (the other build's driver process, step-synchronous); per step the normalised results must be equal and admitted by the model, the final trees must decode to the same records and content; a mixed execution assigns each step a generated flavour and is judged by the model, then read through all three.",
+  "The remote flavour is the other build's driver binary; timestamps assigned by the library are blanked after the model judged them."),
+ "C13": ("fault_enumeration", "system-call fault injection at every call of each operation under a ptrace supervisor; truthfulness + model sweep + fault-free re-run oracle",
+  "17 victim operations x 2 flavours x 2 builds: a fault-free traced run lists the filesystem system calls of the operation, then every call in turn is made to fail with EIO and a class-specific errno (all applicable errnos and fault pairs in the thorough tier), plus short-write-then-ENOSPC; the call must return, successes must be truthful per the model, 'not found' for a present key is a violation, afterwards every other key/address equals the model, the content tree is valid, and the same call re-run without faults behaves normally.",
+  "Only the stated fault classes are injected; leftovers in the temp area and partial index lines are legal; destination of a failed extraction is not judged."),
  "C14": ("exploration", "model-based stateful PBT with abandonment points incl. mid-flight drop; temp-area drain oracle",
   "Programs interleaving successful writes, rejected commits and writers abandoned after creation / after j chunks / mid-flight (future polled once then dropped) / after flush; the model must be unchanged by them after every step and the temp area must drain (tokio: runtime dropped = pool joined; async-std: polled, two snapshots).",
   "async-std background cleanup is awaited by polling (bounded); a still-changing temp area is inconclusive (exit 2), never a violation."),
+ "C17": ("exploration", "two-way interchange PBT against an independent Python implementation of the format (hashlib/json); codec cross-check",
+  "Direction A: the library writes generated histories; ref/refcache.py validates the layout (SHA-1 bucket paths, record grammar, six fields, content paths and digests) and its lookups/reads/listing must equal the library's and the model's; Rust and Python reference codecs must agree on every bucket. Direction B: the Python implementation writes the same history (alternating escaping and field order) and every library read entry point must return exactly what was written.",
+  "CPython hashlib/json as the independent implementation (no XXH3: digest supplied by the harness, verification skipped)."),
  "C18": ("exploration", "factor-grid + random PBT against the reference model; destination-state oracle",
   "Full grid over size x damage class x extraction kind x checked x by key/address x flavour x destination state: success leaves exactly the stored bytes (and the byte count for copies); missing key / content give the stated errors; a failed checked extraction leaves the destination absent or exactly as it was.",
   "Unchecked extraction of damaged content is not judged; reflink success unreachable here."),
+ "C19": ("exploration", "factor-grid + random PBT of link_to with relative paths in a subprocess, partial reads, post-link target changes; model + target-stat oracle",
+  "Every link_to entry point (sync/async, keyed/by-hash, one-shot/builder) over target sizes around the 8-byte probe and 16 KiB buffer, absolute and relative targets (driver process with its own working directory, depth 0-3), partial reads before commit, pre-existing address, declarations; reads by key/address/stream and metadata.size must give the target's bytes as of link time, the content path must be a symlink (or the untouched existing file), no copy may appear in the cache, the target's bytes/inode/mtime never change, and after the target is modified, truncated, removed or replaced reads must fail.",
+  "Harness builds enable the link_to feature."),
+ "C20": ("exploration", "union PBT campaign under catch_unwind + panic hook + watchdog: random programs, hostile on-disk records, fault-injection and crash cases; libFuzzer targets in the thorough tier",
+  "Random programs over the whole operation language on directory / missing / file cache roots; checksum-valid index records with hostile fields planted before programs (fixed family of 17 integrity strings x every read-side call, plus random); C13 fault cases and C04 crash cases judged for panics, hangs and abnormal exits only; panics on runtime threads are collected; a per-case watchdog bounds termination.",
+  "Integrity arguments are well-formed as the property assumes; 'never hangs' is bounded by a watchdog, not proved."),
  "C02": ("exploration", "round-trip PBT (proptest) over a factor grid + seeded random cases; model digest oracle",
   "Factor grid over algorithm x boundary length (0, 1, 8 KiB±1, 1 MiB±1, multi-MiB) x every write entry point x flavour x size declaration x chunking, plus random writes with hostile keys; every write must succeed, return the independently computed digest, and read back exactly through six read entry points by key and by the returned address. Both async builds.",
   "Healthy tmpfs; digests computed with sha1/sha2/xxhash-rust + own base64 (not ssri). Exploration: no claim beyond the generated inputs."),
  "C05": ("exploration", "model-based stateful PBT (proptest) + bounded-exhaustive history enumeration",
   "All histories up to length 3 (quick) / 4, and 5 on a sub-alphabet (thorough), over a 12-symbol alphabet, plus seeded random histories; every key looked up through every lookup entry point after every step and compared with a reference model; sync and async mixed, both builds.",
   "Reference model of DESIGN.md 4.2; healthy tmpfs; nothing is claimed beyond the enumerated bound."),
+ "C07": ("exploration", "schedule enumeration at system-call granularity (context-bounded + random) under a ptrace supervisor; serialisability search against the reference model; splice detector",
+  "2-3 operations sharing keys/addresses, each in its own sync driver process; one supervisor holds every process before every filesystem system call and the generated schedule picks who continues: all start orders and all schedules with <=1 preemption (<=2 for pairs, thorough) for 14 fixed operation sets, random schedules and operation sets beyond, plus uncontrolled in-process stress for the async flavours. Some permutation of the operations replayed on the model must explain every result and the final state; every bucket must decode to valid records only, as many as succeeded.",
+  "Controlled schedules exist for the sync flavour only (async runtimes cannot be scheduled from outside); serialisability, not real-time order, is demanded."),
  "C08": ("exploration", "factor-grid + random PBT against the reference model (expected error variant, mapping unchanged)",
   "Full grid over length (both sides of the mmap threshold) x declared size x declared integrity x prior key state x keyed/by-address x flavour; the error variant and its payload are checked and a full sweep of lookups/listing/addresses after each rejected commit shows the previous mapping untouched.",
   "Healthy tmpfs. Declared integrity that is correct only for another algorithm is left undecided by the statement (both outcomes admitted)."),
@@ -44,6 +62,9 @@ CHECKS = {
  "C11": ("exploration", "round-trip PBT over generated metadata values, default-window oracle",
   "Generated keys, 128-bit timestamps, JSON trees, raw bytes and sizes through every keyed write entry point and raw index insert of both flavours; lookups and listing items must return every field unchanged; default timestamp must fall inside the clock window of the call, default size must be the byte count.",
   "System clock monotone during a call; decimals restricted as the property states."),
+ "C15": ("exploration", "system-call tracing of generated programs with hostile keys in a sandbox + outside snapshot + model-based opacity check",
+  "Programs over the full API with keys from a hostile/confusable pool run (A) in process against the model (confusable keys never alias, read-only calls leave the tree byte- and mtime-identical) and (B) in a driver process under ptrace inside a sandbox with sentinel and decoy siblings: every mutating system call's paths must lie under the cache root (or be the extraction destination), index paths must be the reference bucket path of the step's key, read-only calls issue no mutating call, and a snapshot of everything outside the cache root (incl. a TMPDIR sentinel) is unchanged.",
+  "Supervisor's classification of mutating calls, cross-checked by the snapshot which does not depend on it."),
  "C16": ("exploration", "model-based PBT + differential against coreutils sha*sum; file-count invariant",
   "Histories re-writing equal data through different keys/entry points/flavours and under all five algorithms; addresses compared with the model digest and with coreutils; content file count equals distinct (algorithm, data); damaging one algorithm's copy leaves the others readable.",
   "coreutils as the independent digest implementation (none exists for XXH3 here)."),
